@@ -54,6 +54,7 @@ def _gen(F, R, which):
 
 e6_generated.generated_rules = _gen
 e6_generated.tag_accept_rules = _once(e6_generated.tag_accept_rules)
+e6_generated.hygiene_rules = _once(e6_generated.hygiene_rules)
 
 
 def FOUNDATION(F, R):
@@ -66,6 +67,7 @@ def FOUNDATION(F, R):
     e5_formulas.gate_rules(F, R)
     e6_generated.generated_rules(F, R, {"ptr", "size", "validate"})
     e6_generated.tag_accept_rules(F, R)
+    e6_generated.hygiene_rules(F, R)
     e7_containers.vec_string_validators(F, R)
     e7_containers.array_validator(F, R)
     e7_containers.flex_reader(F, R)
